@@ -211,12 +211,14 @@ func init() {
 			"(G1) values are computed before flows, returns and weights; prices before valuation;",
 			"(B1) the universe's classification slices are never written through a reslice;",
 			"(K-partition-whole) the partition's end dates are consumed whole;",
-			"(A-order, A-stage) float sums and row order do not depend on map iteration or arrival order.",
+			"(A-order, A-stage) float sums and row order do not depend on map iteration or arrival order;",
+			"(K-weights-sum) every update of a weights node adds to the entry it replaces (leaves and groups), the node's map is replaced only by lazy initialisation, and Report.Add receives V1[com] divided by the sum of V1 over the same commodities;",
+			"(K-transfer-fresh) the per-transaction flow maps handed to the additive transfer (performance.split) start empty at every invocation of the callback, so no flow is transferred twice.",
 		},
 		NotDecided: []string{
-			"agreement of the weights with `balance -v` (arithmetic), the return formula, that the top level sums to 100%.",
+			"agreement of the weights with `balance -v` (arithmetic over runtime values), the return formula itself, the classification of a posting as external or internal flow.",
 		},
-		Rules: []Rule{RuleDDaysBeforeBuild, RuleG1, RuleB1, RuleKPartitionWhole, RuleAOrder},
+		Rules: []Rule{RuleDDaysBeforeBuild, RuleG1, RuleB1, RuleKPartitionWhole, RuleAOrder, RuleKWeightsSum, RuleKTransferFresh},
 	})
 }
 
@@ -273,13 +275,14 @@ func init() {
 		ID: "C17",
 		Decides: []string{
 			"(F-cells) every type implementing table.cell has a case in TextRenderer.renderCell, TextRenderer.minLengthCell and CSVRenderer.renderCell, and number cells are measured and rendered through the same numToString;",
+			"(F-width-unit) a text cell's content is used only whole or through a character count, at the width site and at the padding site alike (no byte-wise len, copy, slicing or []byte conversion);",
 			"(C-round) the text renderer scales by the write-once constant 1000 only under Thousands and rounds with decimal.StringFixed(Round) (half away from zero); the CSV renderer calls only decimal.String.",
 		},
 		NotDecided: []string{
-			"digit grouping, padding arithmetic, rune counting, sign and blank-zero rules, equal line width (arithmetic on runtime strings);",
+			"digit grouping, padding arithmetic, sign and blank-zero rules, equal line width (arithmetic on runtime strings);",
 			"percent cells (portfolio weights; outside this property).",
 		},
-		Rules: []Rule{RuleFCells, RuleCRound},
+		Rules: []Rule{RuleFCells, RuleFWidthUnit, RuleCRound},
 	})
 }
 
@@ -328,6 +331,7 @@ func init() {
 		ID: "C16",
 		Decides: []string{
 			"(K-all-postings) every posting of every transaction is written (no skip condition in the loop over the postings), and the amount on the valuation branch is Posting.Value; with C01's pair algebra (J-pair, J-valuation) the postings of a transaction sum to zero;",
+			"(K-emit-all) every element of Journal.Days, Day.Openings, Day.Closings and Day.Transactions is written (its write depends on no test but error tests), and no writer of the transcoder returns success before its writes and element loops;",
 			"(K-transcode-order, K-sorted-days) entries follow the sorted days, and within a day opens come before transactions before closes;",
 			"(F-valuation-open) the predicate that recognises generated valuation accounts accepts what Registry.ValuationAccountFor builds (violated on this tree: known finding);",
 			"(D-nilflag) a missing valuation is an error, not a nil dereference; (D-check-first, G1) the checker and the price stage precede the valuation.",
@@ -335,7 +339,7 @@ func init() {
 		NotDecided: []string{
 			"open-before-use for user accounts (that is the checker's job, C04); completeness against a reference beancount run; escaping of descriptions for beancount.",
 		},
-		Rules: []Rule{RuleKAllPostings, RuleJPair, RuleJValuation, RuleKTranscodeOrder, RuleKSortedDays, RuleFValuationOpen, RuleDNilFlag, RuleDCheckFirst, RuleG1},
+		Rules: []Rule{RuleKAllPostings, RuleKEmitAll, RuleJPair, RuleJValuation, RuleKTranscodeOrder, RuleKSortedDays, RuleFValuationOpen, RuleDNilFlag, RuleDCheckFirst, RuleG1},
 	})
 	claim(&Property{
 		ID: "C19",
